@@ -44,19 +44,20 @@ Theorem write_grows_exactly : forall t r c v, wf t -> 0 <= r < MAX_ROW_COUNT -> 
 Proof. exact write_refines. Qed.
 Print Assumptions write_grows_exactly.
 
-(* iteration: outside -> IndexError; inside -> exactly the addressed rectangle, in order *)
+(* iteration: a bound that is given and is not a position of the table (negative, or at/past the edge) -> IndexError,
+   for starts and ends alike; inside -> exactly the addressed rectangle, in order *)
 Theorem iter_bounds : forall t a b c d,
-  let r0 := match a with Some x => x | None => 0 end in
-  let r1 := match b with Some x => x | None => nrows t - 1 end in
-  let c0 := match c with Some x => x | None => 0 end in
-  let c1 := match d with Some x => x | None => ncols t - 1 end in
-  (r0 < 0 \/ nrows t <= r1 \/ c0 < 0 \/ ncols t <= c1) ->
+  (bound_bad a (nrows t) = true \/ bound_bad b (nrows t) = true \/ bound_bad c (ncols t) = true \/ bound_bad d (ncols t) = true) ->
   iter_rows t a b c d = Err IndexError /\ iter_cols t c d a b = Err IndexError.
 Proof. exact iter_rows_bounds_lemma. Qed.
 Print Assumptions iter_bounds.
 
+Theorem iter_bound_is_a_position : forall x n, bound_bad (Some x) n = true <-> (x < 0 \/ n <= x).
+Proof. exact bound_bad_some. Qed.
+Print Assumptions iter_bound_is_a_position.
+
 Theorem iter_rectangle : forall t r0 r1 c0 c1,
-  0 <= r0 -> r1 < nrows t -> 0 <= c0 -> c1 < ncols t ->
+  0 <= r0 < nrows t -> 0 <= r1 < nrows t -> 0 <= c0 < ncols t -> 0 <= c1 < ncols t ->
   iter_rows t (Some r0) (Some r1) (Some c0) (Some c1) =
     Ok (map (fun r => py_slice (nth (Z.to_nat r) (data t) []) c0 (c1 + 1)) (zrange r0 (r1 + 1))) /\
   iter_cols t (Some c0) (Some c1) (Some r0) (Some r1) =
@@ -66,7 +67,7 @@ Proof. exact iter_rows_rectangle_lemma. Qed.
 Print Assumptions iter_rectangle.
 
 Theorem iter_rows_shape : forall t r0 r1 c0 c1 L, wf t ->
-  0 <= r0 -> r1 < nrows t -> 0 <= c0 -> c1 < ncols t ->
+  0 <= r0 < nrows t -> 0 <= r1 < nrows t -> 0 <= c0 < ncols t -> 0 <= c1 < ncols t ->
   iter_rows t (Some r0) (Some r1) (Some c0) (Some c1) = Ok L ->
   length L = Z.to_nat (r1 + 1 - r0) /\ Forall (fun line => length line = Z.to_nat (c1 + 1 - c0)) L.
 Proof. exact iter_rows_shape_lemma. Qed.
